@@ -277,7 +277,7 @@ func Build(s Spec) *Message {
 		m.add(&buf, "Content-Length", fmt.Sprint(wouldBe))
 	case "chunked":
 		m.add(&buf, "Transfer-Encoding", "chunked")
-		if len(s.Trailers) > 0 {
+		if len(s.Trailers) > 0 && !s.TrailersUnannounced {
 			var names []string
 			for _, t := range s.Trailers {
 				names = append(names, t.Name)
